@@ -12,7 +12,7 @@ EVT-1  configured / automatic switch events are registered for the state their n
 import ast
 
 from sa.model import src, short, dotted, call_attr, kwarg, walk_local, AnalysisError, assigned_targets, const_value
-from sa.helpers import is_snapshot, base_container, feasible_paths, forwarded
+from sa.helpers import is_snapshot, base_container, feasible_paths, forwarded, mutation_while_iterating
 from sa.units import Units, load_spec, ABS, S, MS
 
 SC = "mpf/core/switch_controller.py"
@@ -390,10 +390,41 @@ def check(chk):
     for h in loops:
         chk.ob("PAIR-3", "remove iterates a copy of the list it mutates", is_snapshot(h.ast.iter), f.where(h.ast), construct=f.ident,
                text="snapshot " + short(h.ast.iter))
+    t_alias = {x.targets[0].id for x in ast.walk(f.node) if isinstance(x, ast.Assign) and isinstance(x.targets[0], ast.Name)
+               and "_active_timed_switches" in src(x.value) and not isinstance(x.value, (ast.ListComp, ast.Call))}
     tdel = [n for n in cfg.nodes_where(lambda n: n.kind == "stmt" and isinstance(n.ast, (ast.Delete,)) and
-                                       "_active_timed_switches" in src(n.ast))] + \
+                                       ("_active_timed_switches" in src(n.ast) or any(
+                                           isinstance(t, ast.Subscript) and isinstance(t.value, ast.Name) and t.value.id in t_alias
+                                           for t in n.ast.targets)))] + \
            [n for n, c in cfg.calls_named("remove", "pop") if "_active_timed_switches" in src(c.func) or src(c.func.value) in ("timed_entry",)]
-    chk.ob("PAIR-3", "remove also purges an armed timed record", bool(tdel), f.where(), construct=f.ident, text="timed purge present")
+    # the purge may also be written as a rebuild: <timed list> = [e for e in <timed list> if not (match)]
+    rebuilt = []
+    for n in cfg.nodes_where(lambda n: n.kind == "stmt" and isinstance(n.ast, ast.Assign) and "_active_timed_switches" in src(n.ast.targets[0])
+                             and isinstance(n.ast.value, ast.ListComp)):
+        comp = n.ast.value
+        gen = comp.generators[0]
+        ev_ = src(gen.target)
+        terms_eq, terms_ne, negated = set(), set(), False
+        for cond in gen.ifs:
+            inner = cond
+            if isinstance(cond, ast.UnaryOp) and isinstance(cond.op, ast.Not):
+                negated = True
+                inner = cond.operand
+            for x in ast.walk(inner):
+                if isinstance(x, ast.Compare) and len(x.ops) == 1:
+                    t_ = src(x).replace(" ", "")
+                    if isinstance(x.ops[0], ast.Eq):
+                        terms_eq.add(t_)
+                    elif isinstance(x.ops[0], ast.NotEq):
+                        terms_ne.add(t_.replace("!=", "=="))
+            is_and = isinstance(inner, ast.BoolOp) and isinstance(inner.op, ast.And)
+            is_or = isinstance(inner, ast.BoolOp) and isinstance(inner.op, ast.Or)
+        need = {"%s.state==state" % ev_, "%s.ms==ms" % ev_, "%s.callback==callback" % ev_}
+        ok = src(comp.elt) == ev_ and ((negated and is_and and need <= terms_eq) or (not negated and is_or and need <= terms_ne))
+        rebuilt.append(n)
+        chk.ob("PAIR-3", "the rebuilt timed list keeps exactly the entries that do not match (state, ms, callback)", ok, f.where(n.ast),
+               detail=src(comp)[:160], construct=f.ident, text="timed purge match")
+    chk.ob("PAIR-3", "remove also purges an armed timed record", bool(tdel) or bool(rebuilt), f.where(), construct=f.ident, text="timed purge present")
     for n in tdel:
         g = cfg.guards_at(n.id)
         need = ("entry.state==state", "entry.ms==ms", "entry.callback==callback")
@@ -496,6 +527,18 @@ def _more_rules(chk, repo):
             ok = bool(hidx) and all(const_value(y.slice) == hidx[0] for y in subs)
             chk.ob("PAIR-4", "the replaced wake-up is unscheduled through its handle field", ok, f.where(c), construct=f.ident,
                    text="unschedule handle index " + short(c, 70))
+
+    # ------------------------------------------------------------- SNAP-3
+    n_loops = 0
+    for m_ in sc.methods.values():
+        n_loops += sum(1 for x in ast.walk(m_.node) if isinstance(x, (ast.For, ast.AsyncFor)))
+        for loop, x, what in mutation_while_iterating(m_.node):
+            chk.ob("SNAP-3", "%s does not delete from / insert into the container it is iterating" % m_.qualname, False, m_.where(x),
+                   detail="`%s` inside `for ... in %s`: the element after a deleted one is skipped (a second matching handler survives its "
+                          "removal and still fires)" % (what, short(loop.iter, 50)), construct=m_.ident,
+                   text="%s while iterating %s" % (what, short(loop.iter, 50)))
+    chk.ob("SNAP-3", "loops of the switch controller examined for mutation of the iterated container", n_loops >= 10,
+           "%s:1" % SC, detail="%d loops" % n_loops, nontrivial=False)
 
     # ------------------------------------------------------------- FWD-3
     obj = repo.func(SC, K + ".process_switch_obj")
@@ -693,8 +736,10 @@ def battery():
         M("later deadline pre-empts", SC, "elif next_event_time < self._timed_switch_handler_delay[switch][1]:", "elif next_event_time > self._timed_switch_handler_delay[switch][1]:", "PAIR-4"),
         M("remove ignores ms", SC, "            if entry.ms == ms and entry.callback == callback:\n                entry.cancelled = True", "            if entry.callback == callback:\n                entry.cancelled = True", "PAIR-3"),
         M("remove does not mark cancelled", SC, "                entry.cancelled = True\n", "", "PAIR-3"),
-        M("armed record matched without state", SC, "if entry.state == state and entry.ms == ms and entry.callback == callback:", "if entry.ms == ms and entry.callback == callback:", "PAIR-3"),
-        M("armed records survive removal", SC, "                for dummy_key, entry in enumerate(timed_entry):\n                    if entry.state == state and entry.ms == ms and entry.callback == callback:\n                        del self._active_timed_switches[switch][k][dummy_key]\n", "                pass\n", "PAIR-3"),
+        M("armed record matched without state", SC, "if not (entry.state == state and entry.ms == ms and entry.callback == callback)]", "if not (entry.ms == ms and entry.callback == callback)]", "PAIR-3"),
+        M("armed records survive removal", SC, "                self._active_timed_switches[switch][k] = [\n                    entry for entry in timed_entry\n                    if not (entry.state == state and entry.ms == ms and entry.callback == callback)]\n", "                pass\n", "PAIR-3"),
+        M("F18 again: delete while enumerating", SC, "                self._active_timed_switches[switch][k] = [\n                    entry for entry in timed_entry\n                    if not (entry.state == state and entry.ms == ms and entry.callback == callback)]\n", "                for dummy_key, entry in enumerate(timed_entry):\n                    if entry.state == state and entry.ms == ms and entry.callback == callback:\n                        del self._active_timed_switches[switch][k][dummy_key]\n", "SNAP-3"),
+        M("twin: delete while walking backwards", SC, "                self._active_timed_switches[switch][k] = [\n                    entry for entry in timed_entry\n                    if not (entry.state == state and entry.ms == ms and entry.callback == callback)]\n", "                for dummy_key in reversed(range(len(timed_entry))):\n                    entry = timed_entry[dummy_key]\n                    if entry.state == state and entry.ms == ms and entry.callback == callback:\n                        del timed_entry[dummy_key]\n", None),
         M("cancel keeps the wake-up", SC, "            self.machine.clock.unschedule(self._timed_switch_handler_delay[switch][0])\n            del self._timed_switch_handler_delay[switch]\n\n    def _add_timed_switch_handler", "            del self._timed_switch_handler_delay[switch]\n\n    def _add_timed_switch_handler", "PAIR-3"),
         M("events of the other state posted", SW, "        for event in self._events_to_post[state]:", "        for event in self._events_to_post[self.state ^ 1]:", "DOM-9"),
         M("inactive handler posts active events", SW, "self.add_handler(state=0, callback=self._post_events, callback_kwargs={\"state\": 0})", "self.add_handler(state=0, callback=self._post_events, callback_kwargs={\"state\": 1})", "DOM-9"),
